@@ -14,3 +14,4 @@ def run(chk):
     backtest_rules.adjust_call_sites(chk, "C09")
     tree_rules.settings_pushed_at_construction(chk, "C09")
     core_rules.outlay_rules(chk, "C09")
+    core_rules.set_commissions_rules(chk, "C09")  # the same fee function nested and stand-alone
